@@ -22,10 +22,16 @@ var (
 	base       = time.Now()
 )
 
+var inUse bool
+
+// MarkInUse is called from the init of the file whose clock import was swapped: only a binary that really reads
+// its clock through this package may be put on the controlled clock (elsewhere verifnd.Sleep must really wait).
+func MarkInUse() { inUse = true }
+
 // Control switches the controlled clock on (step > 0) or off.
 func Control(stepNS int64) {
 	mu.Lock()
-	controlled, step = stepNS > 0, stepNS
+	controlled, step = stepNS > 0 && inUse, stepNS
 	mu.Unlock()
 }
 
